@@ -1,0 +1,22 @@
+//go:build verif
+
+package format
+
+// Contracts for govc, the contract verifier under /verif (see /verif/DESIGN.md).
+// Compiled only with -tags verif; comment-only.
+
+//@ func Parse(input) (h, payload, err)
+//@   ensures#reject err != nil ==> h == nil && payload == nil                       [C07 C14]
+//@   ensures#ok err == nil ==> h != nil && payload != nil && len(h.MAC) == 32       [C07]
+//@   ensures#stanzas err == nil ==> (forall j in 0..len(h.Recipients) :: h.Recipients[j] != nil)
+//@   fresh h when err == nil
+//@   fresh h.Recipients when err == nil && len(h.Recipients) > 0
+//@   modifies input.$rem
+
+//@ func (*Header).MarshalWithoutMAC(h, w) (err)
+//@   ensures#out err == nil ==> w.$out == cat(old(w.$out), hdrbytes(h))             [C03 C05 C07]
+//@   modifies w.$out
+
+//@ func (*Header).Marshal(h, w) (err)
+//@   ensures#out err == nil ==> w.$out == cat(old(w.$out), hdrbytes(h), " ", b64raw(bytes(h.MAC)), "\n")   [C03 C05 C07]
+//@   modifies w.$out
